@@ -582,6 +582,7 @@ theorem apply_j {s s' : St} {o : Op} (hi : Inv s) (e : apply s o = .ok s') : J s
   | update m => exact updateState_j hi e
   | fraud au ra hh rev p rw => exact fraud_j hi e
   | obsolete au vs => exact markObsolete_j hi e
+  | punish au a rw => exact (punish_good (punishProposal_ok e).2).J hi.j
   | begin_ dt =>
     simp only [apply] at e; injection e with e; subst e
     exact (beginBlock_good hi.cust.nodup).J hi.j
